@@ -372,9 +372,9 @@ def astmRangePairCounting( data, aggregate=True ):
         right = abs( data[ second ] - data[ i ] )
         if ( right <= left ):
             rstSeq.append( [ data[ second ], data[ i ], 1 ] )
-            indices[ first ] = indices[ i ]
             indices[ second ] = -2
             indices[ i ] = -2
+            i = first
         else: 
             i -= 1
 
